@@ -301,6 +301,37 @@ func constLit(info *types.Info, cl *ast.CompositeLit) bool {
 	return true
 }
 
+// expandLitWildcards: a contract named `f$lit*` stands for one copy per function literal of f.
+func (eng *Engine) expandLitWildcards() {
+	for name, c := range eng.cs.Contracts {
+		if !strings.HasSuffix(name, "$lit*") {
+			continue
+		}
+		base := strings.TrimSuffix(name, "*")
+		delete(eng.cs.Contracts, name)
+		var refs []string
+		for ref := range eng.funcs {
+			if strings.HasPrefix(ref, base) && !strings.Contains(ref[len(base):], "$") {
+				refs = append(refs, ref)
+			}
+		}
+		sort.Strings(refs)
+		for _, ref := range refs {
+			if _, exists := eng.cs.Contracts[ref]; exists {
+				continue // an explicit contract for this literal wins
+			}
+			cp := *c
+			cp.Func = ref
+			cp.Clauses = nil
+			for _, cl := range c.Clauses {
+				cc := *cl
+				cp.Clauses = append(cp.Clauses, &cc)
+			}
+			eng.cs.Contracts[ref] = &cp
+		}
+	}
+}
+
 // synthLockContracts: for every `lockdiscipline pkg.Type mu props P` directive, each method of
 // the type (with a body) gets the contract variant `<method>#locks`:
 //   assert locks; only lock-discipline obligations; the receiver's mutex is free at entry and
@@ -462,6 +493,7 @@ func (eng *Engine) loadContracts() {
 			eng.cs.Errors = append(eng.cs.Errors, err.Error())
 		}
 	}
+	eng.expandLitWildcards()
 	eng.synthLockContracts()
 	if eng.mutexKeys == nil {
 		eng.mutexKeys = map[string]bool{}
